@@ -30,7 +30,8 @@ CTX = b"confidential-context"
 OID = (1, 3, 6, 1, 4, 1, 55555, 7, 1, 0)
 OID2 = (1, 3, 6, 1, 4, 1, 55555, 7, 2, 0)
 
-PLUGINS = ("vstream", "vblock", "vrecord")
+PLUGINS = ("vstream", "vblock", "vrecord", "vsalt16", "vsalt0")
+SALT_LEN = {"vstream": 8, "vblock": 8, "vrecord": 8, "vsalt16": 16, "vsalt0": 0}
 METHODS = ("md5", "sha1")
 PRIVPW = (b"privacy-password-one", b"zz")
 ENGINES = (b"\x80\x00\x1f\x88\x04engine-A", b"\x80\x00\x1f\x88\x04engine-B-is-longer-00")
@@ -118,10 +119,14 @@ def run_case(case, fresh_clock=True):
             if plugin == "vblock" and (len(pad) >= 8 or pad.strip(b"\x00")):
                 bad("unexpected-padding", padding=pad)
             # (b) salt
-            if len(m["usm"]["priv"]) != 8:
+            if len(m["usm"]["priv"]) != SALT_LEN[plugin]:
                 bad("privacy-parameters-are-not-the-plug-in-salt", got=m["usm"]["priv"])
             # (c) nothing in clear on the wire
-            needles = {"plaintext scoped PDU": clear[:24] if len(clear) >= 24 else clear, "requested OID": ber.enc_oid_content(OID[:-2])}
+            # (the head of the scoped PDU is the context engine id, which the
+            # security parameters legitimately carry in clear: search for the
+            # PDU part instead)
+            pdu_raw = sc["pdu"]["node"].raw
+            needles = {"plaintext PDU": pdu_raw[:24], "requested OID": ber.enc_oid_content(OID[:-2])}
             if ctx:
                 needles["context name"] = ctx
             if opname == "set":
@@ -186,9 +191,42 @@ def plan(tier):
     return cases
 
 
+def run_priv_without_auth(acc):
+    """credentials with a privacy password but no authentication key cannot be
+    honoured (USM has no privacy without authentication): whatever the client
+    does, nothing but the discovery probe may leave in clear"""
+    from puresnmp.credentials import V3, Priv
+
+    for plugin in ("vstream", "vrecord"):
+        for opname in ("get", "set"):
+            CLOCK.reset()
+            world.reset_plugins()
+            user = usm.User(b"carol")
+            ag = ragent.V3Agent({OID: ("str", b"v"), OID2: ("str", b"old")}, [user], clock=lambda: CLOCK.now, strict_level=False)
+            creds = V3("carol", None, Priv(b"privacy-password-one", plugin))
+            client, sender = world.make_client(creds, ag.handle, context_name=CTX)
+            result, exc = ops.run_op(client, OPS[opname])
+            facts = {"family": "priv-without-auth", "plugin": plugin, "op": opname, "exception": ops.exc_sig(exc)}
+            violations = []
+            for e in ag.log:
+                if e.get("discovery"):
+                    continue
+                raw = e["raw"]
+                leaks = [w for w, needle in (("context name", CTX), ("requested OID", ber.enc_oid_content(OID[:-2])), ("SET value", MARKER)) if needle in raw]
+                if leaks:
+                    violations.append({"kind": "plaintext-visible-on-the-wire", "detail": {**facts, "what": leaks}, "facts": facts})
+                    break
+            acc.count(evaluations=1, nontrivial=1, states=1, transitions=len(ag.log), traces=1)
+            acc.outcome("ok" if not violations else violations[0]["kind"])
+            for v in violations:
+                v["case"] = {"priv_without_auth": [plugin, opname]}
+                acc.violation(v)
+    acc.sample({"family": "privacy password without authentication key: nothing but the discovery probe may leave in clear"})
+
+
 def shards(tier):
     n = 32
-    return [{"tier": tier, "part": i, "of": n} for i in range(n)] + [{"tier": tier, "interleaved": k} for k in range(4)]
+    return [{"tier": tier, "part": i, "of": n} for i in range(n)] + [{"tier": tier, "interleaved": k} for k in range(4)] + [{"tier": tier, "priv_without_auth": True}]
 
 
 def run_interleaved(k, acc):
@@ -214,6 +252,9 @@ def run_shard(params, acc):
     if "interleaved" in params:
         run_interleaved(params["interleaved"], acc)
         return
+    if params.get("priv_without_auth"):
+        run_priv_without_auth(acc)
+        return
     for case in plan(params["tier"])[params["part"] :: params["of"]]:
         violations, nreq = run_case(case)
         acc.count(evaluations=1, nontrivial=1, states=1, transitions=nreq, traces=1)
@@ -229,7 +270,7 @@ def run_shard(params, acc):
 
 
 def replay(case):
-    if "interleaved" in case:
+    if "interleaved" in case or "priv_without_auth" in case:
         class A:
             def __init__(self):
                 self.v = []
@@ -238,7 +279,10 @@ def replay(case):
             def sample(self, *a, **k): pass
             def violation(self, v): self.v.append(v)
         a = A()
-        run_interleaved(case["interleaved"], a)
+        if "priv_without_auth" in case:
+            run_priv_without_auth(a)
+        else:
+            run_interleaved(case["interleaved"], a)
         return a.v
     return run_case(case)[0]
 
